@@ -449,4 +449,23 @@ def forwardRequest (r : Request) (body : List Bytes) : Option Bytes :=
   | .refused => none
   | .ok bytes bl => some (bytes ++ forwardBody bl 0 body)
 
+/-! ## Flow-control credit of the forwarded request (`ForwardedStreamSource::consume`)
+
+The pipe acknowledges what the origin-side sink accepted (`consume(n)`), in whatever pieces the sink
+took it. The serialised request head was made up by the endpoint: its bytes must not be credited
+to the client's request-body source (`skip_consume_bytes`), everything behind it must. -/
+
+structure Credit where
+  skip     : Nat   -- bytes of the serialised head not yet acknowledged
+  released : Nat   -- credit handed on to the client's body source so far
+  deriving DecidableEq, Repr
+
+def Credit.consume (c : Credit) (n : Nat) : Credit :=
+  let k := min c.skip n
+  { skip := c.skip - k, released := c.released + (n - k) }
+
+/-- the head of `head` bytes was read; then these acknowledgements arrive -/
+def creditAfter (head : Nat) (acks : List Nat) : Credit :=
+  acks.foldl Credit.consume ⟨head, 0⟩
+
 end TT.Fwd
